@@ -422,3 +422,555 @@ func mentionsGlobal(v ssa.Value, name string) bool {
 	}
 	return false
 }
+
+// ---------------------------------------------------------------- R05.16 the newest segment is read off the sorted list
+
+// ruleNewestSegmentFromSortedList: after a restart "the newest log segment" is
+// what tells a reader at the end of a segment whether it is on the live tail.
+// It is the last element of the segment list *after* the numeric sort: the
+// directory walk delivers names in lexical order ("105.aof" before "90.aof").
+func ruleNewestSegmentFromSortedList(w *core.World, r *core.Report) {
+	f := fn(w, r, "pkg/store.newDataSet")
+	if f == nil {
+		return
+	}
+	var sorted core.Site
+	for _, s := range core.SitesNamed(f, false, "sort.Slice", "sort.SliceStable", "slices.SortFunc") {
+		if s.Instr.Parent() == f {
+			sorted = s
+		}
+	}
+	n := 0
+	for _, s := range core.Sites(f, false) {
+		if s.Instr.Parent() != f || !strings.HasSuffix(s.Name, "atomic.Int64).Store") {
+			continue
+		}
+		if fa, ok := s.Common().Args[0].(*ssa.FieldAddr); !ok || core.FieldName(fa) != "lastAofSeg" {
+			continue
+		}
+		n++
+		last := core.DependsOnDeep(s.Common().Args[1], func(x ssa.Value) bool {
+			ia, ok := x.(*ssa.IndexAddr)
+			if !ok {
+				return false
+			}
+			b, ok := ia.Index.(*ssa.BinOp)
+			if !ok || b.Op != token.SUB || !isConstInt(1)(b.Y) {
+				return false
+			}
+			lc, ok := b.X.(*ssa.Call)
+			return ok && isBuiltin(lc, "len")
+		})
+		after := sorted.Instr != nil && core.Dominates(sorted.Instr, s.Instr)
+		r.Check(last && after, "newDataSet/newest-segment-from-sorted-list", s.Pos(), "the 'newest log segment' marker of a reopened directory must be the last element of the segment list after the numeric sort (last element: %v, after the sort: %v): taken in the order the files were found it points at the lexically last name, and a reader at the end of that segment waits for bytes that lie in the next one", last, after)
+	}
+	if n == 0 {
+		r.Fail("newDataSet/newest-segment-from-sorted-list", f.Pos(), "the newest-segment marker is not set when a directory is opened")
+	}
+}
+
+// ---------------------------------------------------------------- R12.10 an array is read to its announced length
+
+// ruleArrayReadsAnnouncedCount: decodeArray reads exactly as many elements as
+// the header announced. A bound that is clamped (a pre-allocation limit reused
+// as the loop bound) returns a command cut short, with an offset that is too
+// small, and leaves the rest of it in the stream.
+func ruleArrayReadsAnnouncedCount(w *core.World, r *core.Report) {
+	f := fn(w, r, "(*pkg/redis/client.Decoder).decodeArray")
+	if f == nil {
+		return
+	}
+	isCount := isResultOf("(*pkg/redis/client.Decoder).decodeInt", 0)
+	n := 0
+	for _, s := range core.SitesNamed(f, false, "(*pkg/redis/client.Decoder).decodeResp") {
+		if s.Instr.Parent() != f {
+			continue
+		}
+		head := core.LoopHeadOf(s.Instr.Block())
+		if head == nil {
+			continue
+		}
+		n++
+		iff, ok := head.Instrs[len(head.Instrs)-1].(*ssa.If)
+		c, okc := core.Cmp{}, false
+		if ok {
+			c, okc = core.AsCmp(iff.Cond, true)
+		}
+		if !okc || c.Op != token.LSS {
+			r.Undecided("Decoder.decodeArray/reads-announced-count", s.Pos(), "the element loop is not of the form `i < bound`")
+			continue
+		}
+		bound := core.Unwrap(c.Y)
+		if lc, isL := bound.(*ssa.Call); isL && isBuiltin(lc, "len") {
+			if mk, isMk := core.Unwrap(lc.Call.Args[0]).(*ssa.MakeSlice); isMk {
+				bound = core.Unwrap(mk.Len)
+			}
+		}
+		clamped := false
+		core.Walk(bound, func(x ssa.Value) bool {
+			if ph, isPhi := x.(*ssa.Phi); isPhi {
+				for _, e := range ph.Edges {
+					if _, isK := core.ConstInt(e); isK {
+						clamped = true
+					}
+				}
+			}
+			return !clamped
+		})
+		r.Check(!clamped && core.DependsOn(bound, isCount), "Decoder.decodeArray/reads-announced-count", s.Pos(), "the number of elements read is not the announced count itself (clamped by a constant: %v): a command with more elements comes out cut short, its offset is too small and the rest of it is decoded as the next command", clamped)
+	}
+	if n == 0 {
+		r.Fail("Decoder.decodeArray/reads-announced-count", f.Pos(), "the element loop was not found")
+	}
+}
+
+// ---------------------------------------------------------------- R18.13 a node owns every slot of its ranges, both ends included
+
+// ruleSlotTableCoversRangeEnds: CLUSTER SLOTS gives inclusive ranges. The
+// client's slot table must be filled from start to end *inclusive*; a half-open
+// loop leaves the last slot of every range (and every single-slot range)
+// without an owner, and a unit whose keys hash there is refused although they
+// share one slot.
+func ruleSlotTableCoversRangeEnds(w *core.World, r *core.Report) {
+	f := fn(w, r, "(*pkg/redis/client/cluster.Cluster).update")
+	if f == nil {
+		return
+	}
+	n := 0
+	for _, in := range core.OwnInstrs(f) {
+		st, ok := in.(*ssa.Store)
+		if !ok {
+			continue
+		}
+		ia, ok := st.Addr.(*ssa.IndexAddr)
+		if !ok {
+			continue
+		}
+		isSlots := fieldNameOfLoad(core.Unwrap(ia.X)) == "slots"
+		if fa, isFa := ia.X.(*ssa.FieldAddr); isFa && core.FieldName(fa) == "slots" {
+			isSlots = true
+		}
+		if !isSlots {
+			continue
+		}
+		head := core.LoopHeadOf(st.Block())
+		if head == nil {
+			continue
+		}
+		n++
+		iff, okI := head.Instrs[len(head.Instrs)-1].(*ssa.If)
+		if !okI {
+			r.Undecided("Cluster.update/range-ends-included", st.Pos(), "the loop that fills the slot table has no recognisable bound")
+			continue
+		}
+		c, okc := core.AsCmp(iff.Cond, true)
+		isEnd := func(v ssa.Value) bool {
+			// the second element of a (start, end) pair: slot[i+1]
+			return core.DependsOn(v, func(x ssa.Value) bool {
+				e, ok := x.(*ssa.IndexAddr)
+				if !ok {
+					return false
+				}
+				b, ok := e.Index.(*ssa.BinOp)
+				return ok && b.Op == token.ADD && isConstInt(1)(b.Y)
+			})
+		}
+		inclusive := false
+		if okc {
+			switch c.Op {
+			case token.LEQ:
+				inclusive = isEnd(c.Y)
+			case token.LSS:
+				if b, isB := core.Unwrap(c.Y).(*ssa.BinOp); isB && b.Op == token.ADD && isConstInt(1)(b.Y) && isEnd(b.X) {
+					inclusive = true
+				}
+			}
+		}
+		r.Check(inclusive, "Cluster.update/range-ends-included", st.Pos(), "the slot table is not filled up to and including the end of each range CLUSTER SLOTS reports: the last slot of every range has no owner, and commands (or whole single-slot units) for keys that hash there are refused")
+	}
+	if n == 0 {
+		r.Fail("Cluster.update/range-ends-included", f.Pos(), "the loop that fills the slot table was not found")
+	}
+}
+
+// ---------------------------------------------------------------- R15.13 what a renewal attempt reports is the election's answer
+
+// ruleRenewResultIsTheAnswer: clusterRenew reports nil only when the election's
+// Renew answered nil. An attempt that gives up waiting (a timeout branch) and
+// returns nil books a renewal that did not happen as a success; the late
+// ErrNotLeader is never read and the instance keeps acting as leader after its
+// lease was taken over.
+func ruleRenewResultIsTheAnswer(w *core.World, r *core.Report) {
+	f := fn(w, r, "(*cmd.SyncerCmd).clusterRenew")
+	if f == nil {
+		return
+	}
+	var renew ssa.Value
+	for _, s := range core.Sites(f, false) {
+		if s.Instr.Parent() == f && s.Common().IsInvoke() && s.Method == "Renew" {
+			renew = s.Value()
+		}
+	}
+	if renew == nil {
+		r.Fail("clusterRenew/reports-the-election's-answer", f.Pos(), "the renewal is not made by clusterRenew itself (its answer is read, if at all, through a channel that a timeout can outrun): an attempt that gave up waiting is reported as a successful renewal")
+		return
+	}
+	bad := false
+	var pos token.Pos = f.Pos()
+	n := 0
+	core.EnumPathsN(f.Blocks[0], 0, 10000, 1, func(p *core.Path) {
+		ret, ok := p.End.(*ssa.Return)
+		if !ok || ret.Parent() != f || len(ret.Results) != 1 {
+			return
+		}
+		n++
+		v := p.Resolve(ret.Results[0])
+		if v == renew || core.DependsOn(v, func(x ssa.Value) bool { return x == renew }) {
+			return
+		}
+		if isNil, known := p.IsNil(v); known && !isNil {
+			return
+		}
+		bad, pos = true, ret.Pos()
+	})
+	r.Check(!bad && n > 0, "clusterRenew/reports-the-election's-answer", pos, "clusterRenew can return a value that is neither the election's answer nor an error: a renewal that was not confirmed is booked as successful and the instance goes on as leader")
+}
+
+// ---------------------------------------------------------------- R16.12 the handshake is for followers that have nothing
+
+// ruleHandshakeOnlyForNewFollower: the handshake frame (META, no data, the
+// leader's newest offset) is indistinguishable, for the follower's metaSync,
+// from the announcement of an empty snapshot. It may only answer a follower
+// that named no id ("" or "?"). A follower that names an id the leader does not
+// have must be refused (stale id) so that it starts over; answered with the
+// handshake it wipes its copy, stores a zero-byte snapshot under its old id and
+// asks again, for ever.
+func ruleHandshakeOnlyForNewFollower(w *core.World, r *core.Report) {
+	f := fn(w, r, "(*syncer.ReplicaLeader).Handle")
+	if f == nil {
+		return
+	}
+	meta, _ := pbCode(w, "SyncResponse_META")
+	isID := func(v ssa.Value) bool {
+		c, ok := core.Unwrap(v).(*ssa.Call)
+		return ok && strings.HasSuffix(core.ResolveCall(c).Name, ").GetRunId")
+	}
+	n := 0
+	for _, s := range core.Sites(f, false) {
+		if s.Instr.Parent() != f || s.Method != "Send" || !s.Common().IsInvoke() {
+			continue
+		}
+		code, ok := frameCode(s.Args()[0])
+		if !ok || code != meta {
+			continue
+		}
+		n++
+		bad := false
+		paths := 0
+		okEnum := core.EnumPathsN(f.Blocks[0], 0, 100000, 1, func(p *core.Path) {
+			on := false
+			for _, in := range p.Instrs {
+				if in == s.Instr {
+					on = true
+				}
+			}
+			if !on || bad {
+				return
+			}
+			paths++
+			if !p.Holds(token.EQL, isID, isConstStr("")) && !p.Holds(token.EQL, isID, isConstStr("?")) {
+				bad = true
+			}
+		})
+		if !okEnum {
+			r.Undecided("ReplicaLeader.Handle/handshake-only-without-id", s.Pos(), "too many paths")
+			continue
+		}
+		r.Check(!bad && paths > 0, "ReplicaLeader.Handle/handshake-only-without-id", s.Pos(), "the handshake frame answers a request on a path that did not establish that the follower named no replication id (\"\" or \"?\"): a follower that names an id the leader does not have takes the frame for the announcement of an empty snapshot, wipes its copy and asks again under the same id without end")
+	}
+	if n == 0 {
+		r.Fail("ReplicaLeader.Handle/handshake-only-without-id", f.Pos(), "no handshake frame is sent")
+	}
+}
+
+// ---------------------------------------------------------------- R19.17 the pipelined receiver closes the replay with the escalated error
+
+// ruleEscalatedErrorClosesReplay: the receiving goroutine of the pipelined
+// sender turns a refused redirection into 'typology changed' and then closes
+// the replay with the error. The Close must see the escalated value: a
+// `defer replayWait.Close(err)` at the top of the closure evaluates its
+// argument at once, the replay ends with the bare MOVED/ASK and is restarted
+// with the same plan.
+func ruleEscalatedErrorClosesReplay(w *core.World, r *core.Report) {
+	f := fn(w, r, "(*syncer.RedisOutput).sendCmdsBatch")
+	if f == nil {
+		return
+	}
+	n := 0
+	for _, g := range core.DeepFuncs(f)[1:] {
+		escalates := false
+		isEsc := func(in ssa.Instruction) bool {
+			if v, ok := in.(ssa.Value); ok && isGlobalLoad(v, "ErrRedisTypologyChanged") {
+				return true
+			}
+			c, ok := in.(*ssa.Call)
+			return ok && core.ResolveCall(c).Name == "syncer.handleDirectError"
+		}
+		for _, in := range core.OwnInstrs(g) {
+			if isEsc(in) {
+				escalates = true
+			}
+		}
+		if !escalates {
+			continue
+		}
+		for _, in := range core.OwnInstrs(g) {
+			var cc *ssa.CallCommon
+			deferred := false
+			switch x := in.(type) {
+			case *ssa.Call:
+				cc = &x.Call
+			case *ssa.Defer:
+				cc, deferred = &x.Call, true
+			default:
+				continue
+			}
+			if !cc.IsInvoke() || cc.Method.Name() != "Close" || !strings.HasSuffix(core.TypeName(cc.Value.Type()), "WaitCloser") || len(cc.Args) != 1 {
+				continue
+			}
+			n++
+			if deferred {
+				r.Fail("sendCmdsBatch/receiver-closes-with-escalated-error", in.Pos(), "the replay is closed by a deferred call in the closure that escalates refused redirections: the argument of a deferred call is evaluated when the defer statement runs, before the escalation, so the replay ends with the bare MOVED/ASK error and is restarted with the same pinned-node plan")
+				continue
+			}
+			bad := false
+			core.EnumPathsN(g.Blocks[0], 0, 10000, 1, func(p *core.Path) {
+				on := false
+				var esc ssa.Value
+				for _, pi := range p.Instrs {
+					if pi == in {
+						on = true
+					}
+					if !on && pi.Parent() == g && isEsc(pi) {
+						esc, _ = pi.(ssa.Value)
+					}
+				}
+				if on && esc != nil {
+					v := p.Resolve(cc.Args[0])
+					if v != esc && !core.DependsOn(v, func(x ssa.Value) bool { return x == esc }) && !mentionsGlobal(v, "ErrRedisTypologyChanged") {
+						bad = true
+					}
+				}
+			})
+			r.Check(!bad, "sendCmdsBatch/receiver-closes-with-escalated-error", in.Pos(), "on a path that escalated a refused redirection the replay is closed with another value than the escalated error")
+		}
+	}
+	if n == 0 {
+		r.Fail("sendCmdsBatch/receiver-closes-with-escalated-error", f.Pos(), "the pipelined receiver's error handler (escalation + Close) was not found")
+	}
+}
+
+// ---------------------------------------------------------------- R10.17 command names are folded over the whole alphabet
+
+// ruleCommandNameLowercased: the command black list is an exact-match table
+// holding the lower-case (and upper-case) spellings; every parser looks a name
+// up after ParseArgs folded it. The folding is strings.ToLower, or a loop that
+// maps exactly 'A'..'Z' (both ends included).
+func ruleCommandNameLowercased(w *core.World, r *core.Report) {
+	f := fn(w, r, "pkg/redis/client.ParseArgs")
+	if f == nil {
+		return
+	}
+	var cmdVal ssa.Value
+	for _, in := range core.Instrs(f) {
+		if ret, ok := in.(*ssa.Return); ok && isSuccessReturn(in) {
+			cmdVal = core.RetVal(ret, 0)
+		}
+	}
+	if cmdVal == nil {
+		r.Unresolved("ParseArgs/command", "the returned command name was not found")
+		return
+	}
+	lib := core.DependsOn(cmdVal, func(x ssa.Value) bool {
+		c, ok := x.(*ssa.Call)
+		if !ok {
+			return false
+		}
+		n := core.ResolveCall(c).Name
+		return n == "strings.ToLower" || n == "bytes.ToLower"
+	})
+	if lib {
+		r.OK("ParseArgs/command-name-folded", f.Pos(), "strings.ToLower")
+		return
+	}
+	// a hand-written fold: the byte comparisons of the helper that produces the name
+	var helper *ssa.Function
+	core.Walk(cmdVal, func(x ssa.Value) bool {
+		if c, ok := x.(*ssa.Call); ok && helper == nil {
+			if g := c.Call.StaticCallee(); g != nil && len(g.Blocks) > 0 && g.Pkg == f.Pkg {
+				helper = g
+			}
+		}
+		return helper == nil
+	})
+	if helper == nil {
+		r.Undecided("ParseArgs/command-name-folded", f.Pos(), "the command name is neither folded with strings.ToLower nor by a helper of the package")
+		return
+	}
+	lo, hi, other := false, false, false
+	for _, in := range core.Instrs(helper) {
+		b, ok := in.(*ssa.BinOp)
+		if !ok {
+			continue
+		}
+		k, isK := core.ConstInt(b.Y)
+		if !isK {
+			continue
+		}
+		switch {
+		case (b.Op == token.GEQ && k == 'A') || (b.Op == token.GTR && k == 'A'-1) || (b.Op == token.LSS && k == 'A') || (b.Op == token.LEQ && k == 'A'-1):
+			lo = true
+		case (b.Op == token.LEQ && k == 'Z') || (b.Op == token.LSS && k == 'Z'+1) || (b.Op == token.GTR && k == 'Z') || (b.Op == token.GEQ && k == 'Z'+1):
+			hi = true
+		case b.Op == token.LSS || b.Op == token.LEQ || b.Op == token.GTR || b.Op == token.GEQ:
+			if k >= 'A'-1 && k <= 'Z'+1 {
+				other = true
+			}
+		}
+	}
+	r.Check(lo && hi && !other, "ParseArgs/command-name-folded", helper.Pos(), "the helper that folds command names does not map exactly 'A'..'Z' (lower end: %v, upper end: %v, another bound inside the alphabet: %v): a name with an unmapped letter keeps its upper-case spelling, matches neither entry of the command black list and is forwarded", lo, hi, other)
+}
+
+// ---------------------------------------------------------------- R10.16 merging slot ranges is a union
+
+// ruleRangeMergeIsUnion: when an inserted slot range overlaps (or touches) a
+// stored one, the merged range is [min(left), max(right)]: the two bounds are
+// extended independently. An `else if` between them loses the right part of a
+// later range nested in an earlier one, and IsSlotInList answers "no" for slots
+// the operator configured in (or out).
+func ruleRangeMergeIsUnion(w *core.World, r *core.Report) {
+	f := fn(w, r, "(*pkg/filter.RangeList).InsertSlotInList")
+	if f == nil {
+		return
+	}
+	n := 0
+	for _, in := range core.OwnInstrs(f) {
+		st, ok := in.(*ssa.Store)
+		if !ok {
+			continue
+		}
+		fa, ok := st.Addr.(*ssa.FieldAddr)
+		if !ok {
+			continue
+		}
+		name := core.FieldName(fa)
+		if name != "Left" && name != "Right" || fieldNameOfLoad(core.Unwrap(st.Val)) != name {
+			continue
+		}
+		other := "Left"
+		if name == "Left" {
+			other = "Right"
+		}
+		n++
+		dependent := false
+		for _, fct := range core.FactsAt(st.Block()) {
+			c, isCmp := core.FactCmp(fct)
+			if !isCmp {
+				continue
+			}
+			if fieldNameOfLoad(core.Unwrap(c.X)) == other && fieldNameOfLoad(core.Unwrap(c.Y)) == other {
+				dependent = true
+			}
+		}
+		r.Check(!dependent, "RangeList.InsertSlotInList/bounds-extended-independently", st.Pos(), "when two slot ranges are merged the %s bound is extended only depending on how the %s bounds compare: the union loses part of a range nested in (or ending inside) an earlier one, and the slot rule answers wrongly for the lost slots", name, other)
+	}
+	if n < 2 {
+		r.Fail("RangeList.InsertSlotInList/bounds-extended-independently", f.Pos(), "the merge of overlapping slot ranges (both bounds taken from the stored range) was not found")
+	}
+}
+
+// ---------------------------------------------------------------- R08.10 a snapshot counts as "being written" only by its name
+
+// ruleWritingOnlyForTmpName: a snapshot file under its final name is complete:
+// its header is verified (size and CRC) when a reader opens it. Only the
+// temporary name means "still being written, nothing to verify yet". Any other
+// way of setting that flag (for instance "shorter than announced") lets a
+// truncated, renamed snapshot be served without the check.
+func ruleWritingOnlyForTmpName(w *core.World, r *core.Report) {
+	f := fn(w, r, "pkg/store.NewRdbReader")
+	if f == nil {
+		return
+	}
+	missing := func(b *ssa.BasicBlock) bool {
+		for _, fct := range core.FactsAt(b) {
+			v := core.Unwrap(fct.Cond)
+			if u, ok := v.(*ssa.UnOp); ok && u.Op == token.NOT {
+				v = core.Unwrap(u.X)
+				fct.Val = !fct.Val
+			}
+			if c, ok := v.(*ssa.Call); ok {
+				n := core.ResolveCall(c).Name
+				if strings.HasSuffix(n, "fileExist") && !fct.Val {
+					return true
+				}
+				if (n == "os.IsNotExist" || n == "errors.Is") && fct.Val {
+					return true
+				}
+			}
+			if cm, ok := core.FactCmp(fct); ok && cm.Op == token.NEQ && core.IsNilConst(cm.Y) && isResultOf("os.Stat", 1)(core.Unwrap(cm.X)) {
+				return true
+			}
+		}
+		return false
+	}
+	n := 0
+	for _, s := range core.SitesNamed(f, false, "pkg/store.newRdbReader") {
+		if s.Instr.Parent() != f {
+			continue
+		}
+		a := s.Args()
+		flag := a[len(a)-1]
+		n++
+		bad := false
+		var pos token.Pos = s.Pos()
+		seen := map[ssa.Value]bool{}
+		var visit func(v ssa.Value, from *ssa.BasicBlock)
+		visit = func(v ssa.Value, from *ssa.BasicBlock) {
+			if seen[v] {
+				return
+			}
+			seen[v] = true
+			switch x := v.(type) {
+			case *ssa.Phi:
+				for i, e := range x.Edges {
+					visit(e, x.Block().Preds[i])
+				}
+				seen[v] = false
+			case *ssa.Const:
+				if b, ok := core.ConstBool(x); ok && b {
+					if from == nil || !(missing(from) || missingAtOrAbove(from, missing)) {
+						bad = true
+					}
+				}
+				seen[v] = false
+			default:
+				bad = true
+			}
+		}
+		visit(flag, nil)
+		r.Check(!bad, "NewRdbReader/writing-only-for-temporary-name", pos, "the 'still being written' flag of a snapshot reader (which skips the size and CRC verification) is set on a path that did not establish that the file exists under its temporary name only: a truncated snapshot under its final name is served without the check")
+	}
+	if n == 0 {
+		r.Fail("NewRdbReader/writing-only-for-temporary-name", f.Pos(), "the reader constructor call was not found")
+	}
+}
+
+func missingAtOrAbove(b *ssa.BasicBlock, missing func(*ssa.BasicBlock) bool) bool {
+	// the edge's source block itself ends the `if !exists` that decides it
+	for d := b; d != nil; d = d.Idom() {
+		if missing(d) {
+			return true
+		}
+	}
+	return false
+}
